@@ -157,8 +157,14 @@ def aliasing_probe(ctx, root):
         case = {'probe': 'aliasing-context-object', 'variant': variant}
         ctx.case(case); ctx.count('aliasing-probe:context-object')
         gv1, gv2 = ({'V': 'v1'}, {'V': 'v2'}) if variant % 3 else (None, None)
-        c1 = Config(root / 'ad', str(b.path('p.json')), context=cobj, namespace='n', global_vars=gv1)
+        # (the first config may get the object inside a LIST, followed by a context that overrides an entry of the same namespace: merging
+        #  must not write into the object)
+        override = {'for_namespaces': {'n': {'y': ['{V}/a', {'d': [3]}], 'z': 'only-first'}}} if variant % 4 >= 2 else None
+        c1 = Config(root / 'ad', str(b.path('p.json')), context=[cobj, override] if override else cobj, namespace='n', global_vars=gv1)
         c2 = Config(root / 'ad', str(b.path('p.json')), context=cobj, namespace='n', global_vars=gv2)
+        if override and 'z' in c2.data:
+            ctx.fail('an override given to one config in a context list reached another config built from the shared Context object', case,
+                     {'second_config_z': _plain(c2.data.get('z'))})
         now = (dict(cobj.data), {k: dict(v) for k, v in cobj.for_namespaces.items()})
         if _plain(now) != _plain(snap):
             ctx.fail('building a config changed the Context object it was given', case, {'before': _plain(snap), 'after': _plain(now)})
